@@ -159,15 +159,13 @@ class BaseCNF:
         if len(data) == 0:
             return
         try:
-            for i, lit in enumerate(data):
+            for lit in data:
                 if not isinstance(lit, Integral):
                     raise TypeError("{} is not an integer".format(lit))
-                # plain integers (e.g. `True` is the literal 1)
-                data[i] = int(lit)
             if 0 in data:
                 raise ValueError("0 is not a valid literal")
-            maxv = max(data)
-            minv = min(data)
+            maxv = int(max(data))
+            minv = int(min(data))
             self._numvar = max(self._numvar, maxv, -minv)
         except (TypeError, ValueError) as te:
             msg = "literals must be non-zero integers"
@@ -288,6 +286,8 @@ not have any effect."""
 
         if check:
             self._check_and_update(data)
+            # plain integers (e.g. `True` is the literal 1)
+            data = [int(lit) for lit in data]
 
         self._clauses.append(data)
 
